@@ -47,7 +47,7 @@ def visit(acc, blk, vec, asg, idx):
 
 
 def blocks(tier):
-    return spaces.v3_blocks(tier)
+    return spaces.v3_blocks(tier) + [spaces.interaction_block("3.0", tier, twin="3.1")]
 
 
 def run(ctx, res):
@@ -63,6 +63,7 @@ def run(ctx, res):
                "that differs in every metric; points distinct by construction; non-trivial = base "
                "score is not 0.0", exhaustive=True)
     res.coverage["official_vectors_reproduced_by_model"] = n_off
+    res.coverage["interaction_rows"] = spaces.interaction_evidence(["3.0"], ctx.tier)
     res.coverage["bound"] = (
         "the property's full quotient: 2 x 2,592 x 100 temporal spellings; 2 x 2,592 x 48 x 27 "
         "inherited and the same 6.7M effective assignments under full override" if ctx.thorough else
